@@ -203,6 +203,13 @@ Theorem C03_skc_complete : forall H C l, wf_pcom C -> 0 <= l -> forall pi r m ra
 Proof. exact skc_complete. Qed.
 Print Assumptions C03_skc_complete.
 
+(* the honest SKC prover never fails on honest inputs (the premise of C03_skc_complete is satisfiable for all of them) *)
+Theorem C03_skc_prover_total : forall H C l, wf_pcom C -> forall pi r m raws,
+  (2 <= List.length m)%nat -> (List.length m <= List.length (pc_g C))%nat -> Permutation.Permutation pi (seq 0 (List.length m)) ->
+  exists t mus, permuted pi m = Some mus /\ skc_prove H C l pi r m raws = Some t.
+Proof. exact skc_prove_total. Qed.
+Print Assumptions C03_skc_prover_total.
+
 (* the algebra behind it, usable on their own: Pedersen commitments are homomorphic ... *)
 Theorem C03_pedersen_homomorphic : forall C, wf_pcom C -> forall k r s la lb,
   0 <= k -> 0 <= r -> 0 <= s -> List.length la = List.length lb -> nonneg la -> nonneg lb ->
